@@ -76,6 +76,8 @@ shape("NestedSampler", {
     "finalised": "Bool",
     "initialised": "Bool",
     "prior_sampling": "Bool",
+    "_close_pool": "Bool",
+    "resumed": "Bool",
     "proposal": "Obj(ProposalAbs)",
     "model": "Obj(ModelAbs)",
 })
